@@ -596,11 +596,10 @@ func (d *drv) poll() {
 func (d *drv) env(what string, oi int, n int) {
 	note := ""
 	if what == "tick" {
-		// sleep to the next tick boundary
+		// a full tick from now: a timer armed with k ticks before this step has
+		// expired after k tick steps, as in the model
 		tick := time.Duration(d.tickUs) * time.Microsecond
-		el := time.Since(d.t0)
-		next := (el/tick + 1) * tick
-		time.Sleep(next - el + 200*time.Microsecond)
+		time.Sleep(tick + 300*time.Microsecond)
 		d.emit(Ev{Ev: "Env", Api: what, N: 1})
 		return
 	}
@@ -905,6 +904,13 @@ func (d *drv) scenario(h []Ev) (err error) {
 		d.runPending()
 	} else {
 		d.drain()
+		if len(d.timers) > 0 {
+			// settle: a callback that must not run any more (cancelled, closed, already
+			// fired) gets the time of the longest delay to show up
+			time.Sleep(time.Duration(2*d.tickUs+500) * time.Microsecond)
+			d.poll()
+			d.sample()
+		}
 	}
 	d.emit(Ev{Ev: "End"})
 	return nil
